@@ -6,11 +6,13 @@ pub open spec fn lz_inv(l: Linearizer) -> bool {
     &&& forall|k: Seq<char>| #[trigger] l.domain.has(k) <==> #[trigger] l.bounds.variable_bounds.has(k)
     &&& forall|k: Seq<char>| #[trigger] l.domain.has(k) ==> vt_wf(l.domain.map()[k].as_type)
     &&& forall|c: Constraint| #[trigger] l.constraints@.contains(c) ==> c_fin(c)
+    &&& forall|r: MidLinearConstraint| #[trigger] l.linear_constraints@.contains(r) ==> row_fin(r)
 }
 // env satisfies everything the context currently demands
 #[verifier::opaque]
 pub open spec fn lz_ok(l: Linearizer, env: Env) -> bool {
-    &&& forall|c: Constraint| #[trigger] l.constraints@.contains(c) ==> c_holds(c, env)
+    &&& forall|c: Constraint| #[trigger] l.constraints@.contains(c) ==> c_holds_w(c, env)
+    &&& forall|r: MidLinearConstraint| #[trigger] l.linear_constraints@.contains(r) ==> row_holds(r, env)
     &&& forall|k: Seq<char>| #[trigger] l.domain.has(k) ==> in_domain(l.domain.map()[k].as_type, env[k])
     &&& box_ok(l.bounds, env)
 }
@@ -18,6 +20,7 @@ pub open spec fn lz_ok(l: Linearizer, env: Env) -> bool {
 #[verifier::opaque]
 pub open spec fn lz_ext(a: Linearizer, b: Linearizer) -> bool {
     &&& forall|c: Constraint| #[trigger] a.constraints@.contains(c) ==> b.constraints@.contains(c)
+    &&& forall|r: MidLinearConstraint| #[trigger] a.linear_constraints@.contains(r) ==> b.linear_constraints@.contains(r)
     &&& forall|k: Seq<char>| #[trigger] a.domain.has(k) ==> b.domain.has(k) && b.domain.map()[k].as_type == a.domain.map()[k].as_type
     &&& forall|k: Seq<char>| #[trigger] a.bounds.variable_bounds.has(k) ==> b.bounds.variable_bounds.has(k) && b.bounds.variable_bounds.map()[k] == a.bounds.variable_bounds.map()[k]
 }
@@ -27,6 +30,7 @@ pub broadcast proof fn lemma_lz_ext_trans(a: Linearizer, b: Linearizer, c: Linea
 {
     reveal(lz_ext);
     assert forall|x: Constraint| #[trigger] a.constraints@.contains(x) implies c.constraints@.contains(x) by { assert(b.constraints@.contains(x)); }
+    assert forall|x: MidLinearConstraint| #[trigger] a.linear_constraints@.contains(x) implies c.linear_constraints@.contains(x) by { assert(b.linear_constraints@.contains(x)); }
     assert forall|k: Seq<char>| #[trigger] a.domain.has(k) implies c.domain.has(k) && c.domain.map()[k].as_type == a.domain.map()[k].as_type by {
         assert(b.domain.has(k) && b.domain.map()[k].as_type == a.domain.map()[k].as_type);
         assert(c.domain.has(k) && c.domain.map()[k].as_type == b.domain.map()[k].as_type);
@@ -40,7 +44,8 @@ pub broadcast proof fn lemma_lz_ext_mono(a: Linearizer, b: Linearizer, env: Env)
     requires #[trigger] lz_ext(a, b), #[trigger] lz_ok(b, env) ensures lz_ok(a, env)
 {
     reveal(lz_ext); reveal(lz_ok);
-    assert forall|x: Constraint| #[trigger] a.constraints@.contains(x) implies c_holds(x, env) by { assert(b.constraints@.contains(x)); }
+    assert forall|x: Constraint| #[trigger] a.constraints@.contains(x) implies c_holds_w(x, env) by { assert(b.constraints@.contains(x)); }
+    assert forall|x: MidLinearConstraint| #[trigger] a.linear_constraints@.contains(x) implies row_holds(x, env) by { assert(b.linear_constraints@.contains(x)); }
     assert forall|k: Seq<char>| #[trigger] a.domain.has(k) implies in_domain(a.domain.map()[k].as_type, env[k]) by {
         assert(b.domain.map()[k].as_type == a.domain.map()[k].as_type);
     }
@@ -54,7 +59,7 @@ pub proof fn lemma_lz_box(l: Linearizer)
 { reveal(lz_inv); reveal(lz_ok); }
 // a change of fields other than the queue, the domain and the range box (e.g. the auxiliary-name counters) changes nothing
 pub proof fn lemma_lz_same(a: Linearizer, b: Linearizer)
-    requires a.constraints == b.constraints, a.domain == b.domain, a.bounds == b.bounds,
+    requires a.constraints == b.constraints, a.linear_constraints == b.linear_constraints, a.domain == b.domain, a.bounds == b.bounds,
     ensures lz_ext(a, b), lz_inv(a) == lz_inv(b), forall|env: Env| #[trigger] lz_ok(b, env) == lz_ok(a, env),
 { reveal(lz_inv); reveal(lz_ok); reveal(lz_ext); }
 // transitivity is NOT broadcast (two-trigger chains are expensive): call it where a chain is needed
